@@ -152,6 +152,22 @@ CLAIMED['C13'] = dict(
     ref='4 C13, App. B',
     note='caller data = namespace values, sequence parameters, results of '
          'client methods and their elements')
+CLAIMED['C15'] = dict(
+    technique='table queries (duplicates, name/option agreement), '
+              'iteration-source query, statement-order check of pipeline '
+              'stage markers, name/function agreement',
+    text='Partial: the modifier table has no duplicates, its function names '
+         'equal the valueless options dtml-var accepts, the applied '
+         'modifiers are the table filtered in table order; in Var.render '
+         'the stage markers missing < null < fmt < C-format < modifier loop '
+         '< size/etc < final return appear in that order; lower/upper/'
+         'capitalize call their own string method, url_(un)quote(_plus) '
+         'use the matching urllib function, sql_quote removes NUL/^Z/CR and '
+         'doubles quotes, special-format aliases map to the like-named '
+         'function, the two fmt dispatch copies are identical. Not decided: '
+         'truncation arithmetic, round-trip laws on values.',
+    ref='4 C15, App. B',
+    note='stage markers located by the option literal they test')
 PENDING = {}
 NA = {
     'C16': 'numerical identities over run-time data (sums, means, n vs n-1, '
